@@ -20,6 +20,37 @@ warnings.filterwarnings("ignore")
 PROP = "C15"
 LEAN_MODULE = "SkVerif.Props.C15"
 OBLIGATIONS = [
+    "SkVerif.C15.nestedOf_injective",
+    "SkVerif.C15.miOf_injective",
+    "SkVerif.C15.arr3_nested_arr3",
+    "SkVerif.C15.arr3_nested_arr3_default",
+    "SkVerif.C15.nested_arr3_nested",
+    "SkVerif.C15.nested_to_arr3_eq_panel",
+    "SkVerif.C15.arr3_mi_arr3",
+    "SkVerif.C15.mi_arr3_mi",
+    "SkVerif.C15.nested_mi_nested",
+    "SkVerif.C15.mi_nested_mi",
+    "SkVerif.C15.path_preserves_panel",
+    "SkVerif.C15.path_independence",
+    "SkVerif.C15.nested_mi_arr3_eq_direct",
+    "SkVerif.C15.arr3_nested_mi_eq_direct",
+    "SkVerif.C15.nested_arr3_mi_defaults_names",
+    "SkVerif.C15.nested_predicates_iff",
+    "SkVerif.C15.are_columns_nested_iff",
+    "SkVerif.C15.are_columns_nested_length",
+    "SkVerif.C15.cell_isNested_iff",
+    "SkVerif.C15.checkX_coerce_numpy",
+    "SkVerif.C15.checkX_coerce_pandas",
+    "SkVerif.C15.checkX_identity_arr3",
+    "SkVerif.C15.checkX_rejects",
+    "SkVerif.C15.checkX_pandas_numpy_roundtrip",
+    "SkVerif.C15.nested_to_tab2",
+    "SkVerif.C15.arr3_nested_tab2_eq_direct",
+    "SkVerif.C15.nested_arr3_tab2_eq_direct",
+    "SkVerif.C15.tab2_to_nested",
+    "SkVerif.C15.arr3_tab2_nested_arr3_univariate",
+    "SkVerif.C15.arr3_tab2_nested_concat",
+    "SkVerif.C15.tab2_to_nested_array_cells_rejected",
 ]
 TRUSTED = [
     "hand-written model SkVerif/Model/Panel.lean of data_processing.py / check_X: pandas and numpy primitives (np.stack, reshape, swapaxes, "
@@ -477,9 +508,9 @@ def _walk(c, toks, fails):
         if tok.startswith("E:") or tok.startswith("X:"):
             if named:
                 fails.append((op + ":named-series-cells:rejected", "Series cells carrying a name (%s): %s raised %s" % (start["snames"], op, tok)))
-            elif op == "nl" and names is not None and any(x in ("index", "time_index", "value") for x in names):
+            elif op == "nl" and tok == "E:value" and names is not None and any(x in ("index", "time_index", "value") for x in names):
                 fails.append(("nl:reserved-name-rejected", "nested frame with a column named %r cannot be converted to long: %s" % (names, tok)))
-            elif op == "2n" and h[2] == "R":
+            elif op == "2n" and h[2] == "R" and tok == "E:type":
                 fails.append(("2n:array-cells-rejected", "from_2d_array_to_nested(cells_as_numpy=True) raised %s" % tok))
             else:
                 fails.append((site + ":valid-rejected", "hop %d %r on a valid %s container raised %s" % (hi, h, kind, tok)))
@@ -535,7 +566,9 @@ def _walk(c, toks, fails):
                 fails.append((site + ":shape", "hop %d %r: %d names for %d variables" % (hi, h, len(onames), wshape[1])))
                 return
             if names is not None and pnames is None and IN[op] in ("N", "M", "L"):
-                if onames != names:
+                if onames != names and op == "ln" and onames == default_names(len(onames)):
+                    fails.append(("ln:names-defaulted", "hop %d %r: the long table carried the names %r (in identifier order), the result is labelled %r" % (hi, h, names, onames)))
+                elif onames != names:
                     fails.append((site + ":names-not-preserved", "hop %d %r: column names %r, the original (in the expected variable order) are %r" % (hi, h, onames, names)))
             names = list(onames)
         else:
